@@ -662,6 +662,11 @@ func handleRename(params internal.HandlerFuncParams) ([]byte, error) {
 		return nil, errors.New("no such key")
 	}
 
+	// Renaming a key to itself leaves it as it is
+	if oldKey == newKey {
+		return []byte("+OK\r\n"), nil
+	}
+
 	// Set the new key with the old value
 	if err := params.SetValues(params.Context, map[string]interface{}{newKey: oldValue}); err != nil {
 		return nil, err
@@ -746,7 +751,7 @@ func handleGetex(params internal.HandlerFuncParams) ([]byte, error) {
 	// Handle persist
 	exCommand := strings.ToUpper(params.Command[2])
 	// If time is provided with PERSIST it is effectively ignored
-	if exCommand == "persist" {
+	if exCommand == "PERSIST" {
 		// getValues will update key access so no need here
 		params.SetExpiry(params.Context, exkey, time.Time{}, false)
 		return []byte(fmt.Sprintf("+%v\r\n", value)), nil
